@@ -57,8 +57,8 @@ class _Emit(Client):
         return dotted(e) == (ctx.func.self_name, self.bf.storage)
 
     def classify(self, call, ctx: Ctx):
-        if self.emit_kind == "print" and isinstance(call.func, ast.Attribute) and call.func.attr == "_print" \
-                and ctx.scope.is_self(call.func.value):
+        if self.emit_kind == "print" and isinstance(call.func, ast.Attribute) and ctx.scope.is_self(call.func.value) \
+                and call.func.attr in _print_helpers(self.bf.cls):
             return "emit"
         return None
 
@@ -219,6 +219,28 @@ def r1_emit(prog, rep: Report):
               scenario="p.print(3,'D'); p.print(2,'C'); p.flush() prints D before C")
 
 
+def _print_helpers(cls: Cls):
+    """private methods of the buffer class that wrap the builtin print"""
+    out = set()
+    for name, f in cls.methods.items():
+        if any(isinstance(c, ast.Call) and isinstance(c.func, ast.Name) and c.func.id == "print" for c in walk_own(f.node)) \
+                and name not in ("print", "flush", "clear"):
+            out.add(name)
+    return out
+
+
+def _ring_slots_field(prog) -> str:
+    """the slot array of the ring: the field written element-wise with the new element in put()"""
+    c = prog.cls("CircularBuffer", RING_MOD)
+    p = prog.method(c, "put")
+    for n in walk_own(p.node):
+        if isinstance(n, ast.Assign) and isinstance(n.targets[0], ast.Subscript) and src(n.value) == p.params[1]:
+            d = dotted(n.targets[0].value)
+            if d and len(d) == 2:
+                return d[1]
+    raise AnalysisError("CircularBuffer.put does not write the element into a slot array")
+
+
 def r2_observers(prog, rep: Report):
     rep.rule("C15.R2", "observers: waiting_for returns the cursor; len is the len of the storage dict", floor=4)
     for cname in ("Buffer", "PrintBuffer"):
@@ -294,7 +316,7 @@ def r3_reset(prog, rep: Report):
     reset_agreement(prog, rep, "C15.R3", prog.cls("PrintBuffer", BUF_MOD), "clear", {},
                     "after clear() the buffer must wait for serial 0 and hold nothing")
     reset_agreement(prog, rep, "C15.R3", prog.cls("CircularBuffer", RING_MOD), "clear",
-                    {"_buffer": "stale slots are unreachable once the size is 0 (index guard, C15.R4)"},
+                    {_ring_slots_field(prog): "stale slots are unreachable once the size is 0 (index guard, C15.R4)"},
                     "put 1,2,3; clear(); put 9: the buffer must present exactly [9]")
 
 
